@@ -1091,16 +1091,17 @@ REGISTRY.append(StrandEndToEnd())
 
 
 def gen_pairwise_case(rnd):
-    dims = [gen_dim(rnd, "CAT", "a"), gen_dim(rnd, rnd.choice(["CAT", "CAT", "MR"]), "b")]
+    full = rnd.random() < 0.15  # effective base + subtotals on both dimensions (intersection cells)
+    dims = [gen_dim(rnd, "CAT", "a"), gen_dim(rnd, "CAT" if full else rnd.choice(["CAT", "CAT", "MR"]), "b")]
     for d in dims:
         d.pop("doc_order", None)
-    weighted = rnd.random() < 0.4
+    weighted = full or rnd.random() < 0.4
     rs = gen_respondents(rnd, dims, rnd.choice([6, 12, 25, 40]), weighted)
     cd = dims[1]
     is_mr = cd["kind"] == "MR"
     ids = list(range(1, cd["n"] + 1)) if is_mr else [c["id"] for c in cd["cats"]]
     t = {}
-    if not is_mr and rnd.random() < 0.5:
+    if not is_mr and (full or rnd.random() < 0.5):
         t["insertions"] = [{"function": "subtotal", "name": "s", "anchor": rnd.choice(["top", "bottom"] + ids),
                             "args": rnd.sample(ids, rnd.choice([1, min(2, len(ids))])), "id": 1}]
     if rnd.random() < 0.3:
@@ -1110,6 +1111,10 @@ def gen_pairwise_case(rnd):
     if rnd.random() < 0.3:
         t["prune"] = True
     tr = {"columns_dimension": t} if t else {}
+    if full or rnd.random() < 0.4:
+        rids = [c["id"] for c in dims[0]["cats"]]
+        tr["rows_dimension"] = {"insertions": [{"function": "subtotal", "name": "rs", "anchor": rnd.choice(["top", "bottom"] + rids),
+                                                "args": rnd.sample(rids, rnd.choice([1, min(2, len(rids))])), "id": 1}]}
     alpha = rnd.choice([None, 0.05, [0.05], [0.3, 0.05], [0.1, 0.45], 0.6])
     pw = {}
     if alpha is not None:
@@ -1121,7 +1126,7 @@ def gen_pairwise_case(rnd):
         pw["only_larger"] = True
     if pw:
         tr["pairwise_indices"] = pw
-    return dict(dims=dims, rs=rs, weighted=weighted, transforms=tr, sq=weighted and not is_mr and rnd.random() < 0.5)
+    return dict(dims=dims, rs=rs, weighted=weighted, transforms=tr, sq=full or (weighted and not is_mr and rnd.random() < 0.5))
 
 
 class PairwiseEndToEnd(EnumContract):
@@ -1178,22 +1183,30 @@ class PairwiseEndToEnd(EnumContract):
             W = np.array([[wsum(rs, lambda r, i=i, j=j: r["a"][0] == i and member(cd, r["a"][1], j)) for j in C] for i in R])
             U = np.array([[wsum(rs, lambda r, i=i, j=j: r["a"][0] == i and member(cd, r["a"][1], j), False) for j in C] for i in R])
             W2 = np.array([[math.fsum(r["w"] * r["w"] for r in rs if r["a"][0] == i and member(cd, r["a"][1], j)) for j in C] for i in R])
-            # per display column: proportion of each base row and unweighted column base
+            # rows of the statistic: base rows, then the row subtotals (merged categories)
+            rvids = [rd["cats"][i]["id"] for i in R]
+            r_ins = []
+            for one in (tr.get("rows_dimension") or {}).get("insertions") or []:
+                if set(one["args"]) & set(rvids):
+                    r_ins.append([rvids.index(i) for i in rvids if i in one["args"]])
+            SR = len(r_ins)
+            # per display column: proportion of each row (base + subtotal) and unweighted column base
             P, N = [], []
             for o in co:
                 m = members(o)
                 w = W[:, m].sum(axis=1)
+                w_all = np.concatenate([w, [w[a].sum() for a in r_ins]]) if SR else w
                 with np.errstate(all="ignore"):
-                    P.append(w / w.sum())
+                    P.append(w_all / w.sum())
                 if case.get("sq"):
                     with np.errstate(all="ignore"):
                         N.append(np.float64(W[:, m].sum()) ** 2 / np.float64(W2[:, m].sum()))
                 else:
                     N.append(U[:, m].sum())
-            P = np.array(P).T if co else np.zeros((len(R), 0))  # rows x display columns
+            P = np.array(P).T if co else np.zeros((len(R) + SR, 0))  # (rows + row subtotals) x display columns
             N = np.array(N, dtype=float)
-            rows = [o for o in ro if o >= 0]
-            rpos = [k for k, o in enumerate(ro) if o >= 0]
+            rows = [(o if o >= 0 else len(R) + o + SR) for o in ro]
+            rpos = list(range(len(ro)))
             alpha_cfg = (tr.get("pairwise_indices") or {}).get("alpha")
             if not alpha_cfg:
                 a1, a2 = 0.05, None
@@ -1992,6 +2005,8 @@ def gen_smoothing_case(rnd):
         cd["cats"][0]["missing"] = False
     weighted = rnd.random() < 0.5
     rs = gen_respondents(rnd, [rd, cd], rnd.choice([0, 10, 25, 40]), weighted)
+    for c in rd["cats"]:
+        c["nv"] = None if rnd.random() < 0.3 else rnd.choice([-1, 0, 1, 2, 5])
     sm = {"function": "one_sided_moving_avg"}
     w = rnd.choice([None, 0, 1, 2, 3, 4, 7])
     if w is not None:
@@ -2004,7 +2019,8 @@ class SmoothingEndToEnd(EnumContract):
     props = ("C20",)
     bound = ("CAT x CAT_DATE (or CAT x CAT) responses, <= 4 rows, <= 6 periods (missing ones anywhere), <= 40 respondents, "
              "window in {absent, 0, 1, 2, 3, 4, 7}; seeded sample")
-    clauses = ("smoothed-proportions", "smoothed-percentages", "smoothed-index", "unsmoothed-when-not-applicable", "smoothing-exception")
+    clauses = ("smoothed-proportions", "smoothed-percentages", "smoothed-index", "smoothed-scale-mean",
+               "unsmoothed-when-not-applicable", "smoothing-exception")
 
     def cases(self, cfg, seed, thorough):
         rnd = random.Random(9800 + seed)
@@ -2046,6 +2062,21 @@ class SmoothingEndToEnd(EnumContract):
                         bad.add(clause)
                 elif not close(got, plain, 1e-9):
                     bad.add("unsmoothed-when-not-applicable")
+            # the smoothed scale mean is the scale mean *of the smoothed proportions*
+            R = valid_elems(rd)
+            nv = np.array([np.nan if rd["cats"][i].get("nv") is None else rd["cats"][i]["nv"] for i in R], dtype=float)
+            got_sm = p.smoothed_columns_scale_mean
+            if np.all(np.isnan(nv)):
+                if got_sm is not None:
+                    bad.add("smoothed-scale-mean")
+            else:
+                props = np.asarray(p0.column_proportions, dtype=float)
+                sp = trailing(props) if applies else props
+                has = ~np.isnan(nv)
+                with np.errstate(all="ignore"):
+                    exp_sm = np.nansum(nv[has][:, None] * sp[has, :], axis=0) / np.sum(sp[has, :], axis=0)
+                if got_sm is None or not close(np.asarray(got_sm, dtype=float), exp_sm, 1e-7):
+                    bad.add("smoothed-scale-mean")
         except Exception as e:
             bad.add("smoothing-exception:%s" % type(e).__name__)
         return sorted(bad)
